@@ -14,6 +14,9 @@ from typing import Dict, List, Optional
 
 from experimaestro import Config, Meta, Param, Task, deprecate
 
+# classes defined in a plain file (a module outside any package): recorded with a "file" entry in params.json
+from vpk_c20_plain import PlainModel, PlainLearner, OldPlainLearner  # noqa: E402
+
 DEPRECATED = os.environ.get("VPK_C20_DEPRECATED", "1") == "1"
 
 
@@ -118,9 +121,9 @@ class OldBig(NewBig):
 
 
 OLD2NEW = {"OldLeaf": "NewLeaf", "OlderLeaf": "NewLeaf", "OldMid": "NewMid", "RenamedTask": "NewTask",
-           "MovedTask": "NewTask", "OldBig": "NewBig", "OldAux": "NewAux"}
+           "MovedTask": "NewTask", "OldBig": "NewBig", "OldAux": "NewAux", "OldPlainLearner": "PlainLearner"}
 CLASSES = {c.__name__: c for c in (NewLeaf, OldLeaf, OlderLeaf, NewAux, OldAux, NewMid, OldMid, Plain, NewTask, RenamedTask,
-                                   MovedTask, Holder, NewBig, OldBig)}
+                                   MovedTask, Holder, NewBig, OldBig, PlainModel, PlainLearner, OldPlainLearner)}
 
 
 # ---------------------------------------------------------------- directed probe (not used by the random generators)
